@@ -259,6 +259,21 @@ func oraclePoliciesFor(prop string, rng *rand.Rand, n int, unsafeOK bool) []*Pol
 	switch prop {
 	case "C04":
 		return []*PolicySpec{{Name: "__strict"}, {Name: "__ugc"}}
+	case "C07":
+		var out []*PolicySpec
+		for i := 0; i < n; i++ {
+			ps := &PolicySpec{Name: "conforming", Ops: []Op{{Kind: "elements", Names: []string{"b", "i", "p", "div", "span", "ul", "li", "em", "strong", "br", "hr"}},
+				{Kind: "attrs", Names: []string{"id", "title", "class"}, Scope: "G"}}}
+			// further rules may only add: the conforming documents must still pass unchanged
+			for j := 0; j < rng.Intn(6); j++ {
+				o := randOp(rng)
+				if isRuleOp(o) {
+					ps.Ops = append(ps.Ops, o)
+				}
+			}
+			out = append(out, ps)
+		}
+		return out
 	case "C03":
 		var out []*PolicySpec
 		els := []string{"a", "area", "base", "link", "blockquote", "del", "ins", "q", "audio", "embed", "iframe", "img", "input", "script", "source", "track", "video", "b"}
@@ -304,6 +319,38 @@ func docFor(prop string, g *docGen, rng *rand.Rand, ps *PolicySpec) string {
 	case "C05":
 		d, _ := g.document()
 		return d + pick(rng, []string{"", "<script>MARKS</script>", "<SCRIPT x=y>MARKS</SCRIPT>", "<style>MARKS</style>", "<svg><script>MARKS</script></svg>", "<script/>MARKS</script>", "<style/>MARKS</style>", "<script>MARKS", "<math><style>MARKS</style>", "<scrİpt>x</script>"})
+	case "C07":
+		// a canonical serialisation of a random well-formed tree in the policy's own vocabulary
+		var gen func(depth int) string
+		texts := []string{"hello", "a &amp; b", "1 &lt; 2", "x&gt;y", "&#34;q&#34;", "it&#39;s", "caf\u00e9", " ", "MARK"}
+		gen = func(depth int) string {
+			var b strings.Builder
+			for i := 0; i < 1+rng.Intn(3); i++ {
+				switch k := rng.Intn(6); {
+				case k < 2:
+					b.WriteString(pick(rng, texts))
+				case k < 3:
+					b.WriteString("<" + pick(rng, []string{"br", "hr"}) + ">")
+				default:
+					el := pick(rng, []string{"b", "i", "p", "div", "span", "ul", "li", "em", "strong"})
+					b.WriteString("<" + el)
+					for _, k := range []string{"id", "title", "class"} {
+						if rng.Intn(3) == 0 {
+							b.WriteString(" " + k + "=\"" + pick(rng, []string{"x", "a b", "", "n-1", "it&#39;s", "a&amp;b"}) + "\"")
+						}
+					}
+					b.WriteString(">")
+					if depth < 3 {
+						b.WriteString(gen(depth + 1))
+					}
+					b.WriteString("</" + el + ">")
+				}
+			}
+			return b.String()
+		}
+		d := gen(0)
+		// adjacent text runs are one token: merge happens naturally in the string
+		return d
 	case "C03":
 		var b strings.Builder
 		corpus := urlCorpus(rng, 3)
@@ -711,6 +758,14 @@ func oracleFor(prop string, fail func(oracleCase, string, map[string]any), sum *
 				}
 			}
 			return nt
+		}
+	case "C07":
+		return func(c oracleCase, v *specView) bool {
+			out := c.gp.Sanitize(c.doc)
+			if out != c.doc {
+				fail(c, "a conforming document in canonical serialisation is not returned byte for byte", nil)
+			}
+			return strings.Contains(c.doc, "<")
 		}
 	case "C02":
 		return func(c oracleCase, v *specView) bool {
